@@ -32,7 +32,8 @@
 (*                                                                         *)
 (* Configurations: MC_ListViewImpl_quick.cfg (<= 3 words / 7 tokens / 1    *)
 (* comment line x 2 calls), MC_ListViewImpl.cfg (<= 4 words / 9 tokens / 2 *)
-(* comment lines x 2 calls; the final newline counts as a token); the      *)
+(* comment lines x 2 calls; the final newline counts as a token),          *)
+(* MC_ListViewImpl_deep.cfg (<= 2 words / 6 tokens x 3 calls); the         *)
 (* harness generates the emission configurations (Emit = TRUE, a slice of  *)
 (* the layouts chosen by the seed).                                        *)
 (*                                                                         *)
@@ -40,6 +41,11 @@
 (* write on leaving (ValueError "Field must have content"), the document   *)
 (* stays as it was -- consistent with "the document is still syntactically *)
 (* valid", so it is modelled as the code does (CRes = "ValueError").       *)
+(*                                                                         *)
+(* Leaving with an EMPTY list that the code does write (possible only     *)
+(* after append_separator) is unspecified (EmptyWrite): with                *)
+(* reformat_when_finished on top the code writes a field without content   *)
+(* -- TLC shows it with MaxEdits = 3 when the exemption is removed.        *)
 (*                                                                         *)
 (* Negative controls (constants that switch in a wrong design; each makes  *)
 (* TLC report the named invariant: MC_ListViewImpl_neg_remove / _leak /    *)
@@ -263,9 +269,13 @@ Refines     == IsOpen => RenderVals(toks) = vals
 RoundTrip   == (IsOpen /\ steps = 0) => Written(toks) = lay
 TailOK      == IsOpen => /\ (tail = "cmt") <=> (toks # <<>> /\ Tl(toks) = <<CM>>)
                          /\ (tail = "nl")  <=> (toks # <<>> /\ Tl(toks) = <<NL>>)
-EditResult  == IsOpen => IF CRes = "ok" THEN Split(mode, COut) = vals
-                         ELSE IF CRes = "nowrite" THEN vals = Split(mode, lay) ELSE TRUE
-StillValid  == IsOpen => Valid(COut)
+\* Writing an EMPTY list is unspecified: normally the code refuses (CRes = "ValueError"); after
+\* append_separator it writes the separators, and with reformat_when_finished on top a field without
+\* content (remove(only value); append_separator(); reformat_when_finished() -- 3 calls).
+EmptyWrite  == vals = <<>> /\ CRes = "ok"
+EditResult  == (IsOpen /\ ~EmptyWrite) => IF CRes = "ok" THEN Split(mode, COut) = vals
+                                          ELSE IF CRes = "nowrite" THEN vals = Split(mode, lay) ELSE TRUE
+StillValid  == (IsOpen /\ ~EmptyWrite) => Valid(COut)
 RefuseOnlyWhen == IsOpen => /\ (CRes = "ValueError" => CloseMayRefuse)
                             /\ (vals = <<>> /\ changed /\ ~HasContent(toks)) => CRes = "ValueError"
 \* the value elements are atomic: a word of the list is never split or glued by an edit
